@@ -580,6 +580,8 @@ class Conv1d(OpDef):
             out.append({"N": 1, "Ci": 1, "Co": 2, "L": Lin, "k": k, "s": s, "p": p, "d": d, "bias": True, "via": "M"})
         out.append({"N": 1, "Ci": 1, "Co": 1, "L": 4, "k": 3, "s": 1, "p": "same", "d": 1, "bias": False, "via": "M"})
         out.append({"N": 1, "Ci": 1, "Co": 1, "L": 4, "k": 3, "s": 1, "p": "same", "d": 2, "bias": True, "via": "M"})
+        out.append({"N": 1, "Ci": 1, "Co": 1, "L": 3, "k": 2, "s": 1, "p": "same", "d": 2, "bias": False, "via": "M"})   # even kernel, even dilation
+        out.append({"N": 1, "Ci": 1, "Co": 1, "L": 4, "k": 4, "s": 1, "p": "same", "d": 2, "bias": False, "via": "M"})
         out.append({"N": 1, "Ci": 1, "Co": 1, "L": 4, "k": 2, "s": 1, "p": "same", "d": 1, "bias": False, "via": "M"})   # odd total
         out.append({"N": 1, "Ci": 1, "Co": 1, "L": 5, "k": 2, "s": 1, "p": "same", "d": 3, "bias": False, "via": "M"})   # odd total
         out.append({"N": 1, "Ci": 1, "Co": 1, "L": 4, "k": 2, "s": 1, "p": "valid", "d": 1, "bias": False, "via": "M"})
@@ -660,6 +662,7 @@ class Conv2d(OpDef):
         out.append({"H": 3, "W": 3, "k": [3, 3], "s": 1, "p": "same", "d": 1, "N": 1, "Ci": 1, "Co": 1, "bias": False, "via": "M"})
         out.append({"H": 3, "W": 4, "k": [1, 3], "s": 1, "p": "same", "d": 1, "N": 1, "Ci": 1, "Co": 1, "bias": False, "via": "M"})
         out.append({"H": 4, "W": 3, "k": [3, 1], "s": 1, "p": "same", "d": 1, "N": 1, "Ci": 1, "Co": 1, "bias": False, "via": "M"})
+        out.append({"H": 3, "W": 2, "k": [2, 1], "s": 1, "p": "same", "d": [2, 1], "N": 1, "Ci": 1, "Co": 1, "bias": False, "via": "M"})   # even kernel, even dilation
         out.append({"H": 3, "W": 3, "k": [2, 3], "s": 1, "p": "same", "d": 1, "N": 1, "Ci": 1, "Co": 1, "bias": False, "via": "M"})   # odd total (H)
         out.append({"H": 3, "W": 3, "k": [2, 2], "s": 1, "p": "same", "d": 1, "N": 1, "Ci": 1, "Co": 1, "bias": False, "via": "M"})   # odd totals
         out.append({"H": 3, "W": 3, "k": [2, 2], "s": 1, "p": "valid", "d": 1, "N": 1, "Ci": 1, "Co": 1, "bias": True, "via": "M"})
